@@ -19,7 +19,7 @@ session, and `SetID` touches the index only for a session in Preparing / Ok.
 -/
 import Teleport.Lemmas.Lifecycle
 import Teleport.Model.Redial
-import Teleport.Lemmas.SrcFlow
+import Teleport.Lemmas.SrcPaths
 import Teleport.Gen.Transitions
 import Teleport.Gen.ReadLoop
 namespace Teleport
@@ -392,7 +392,8 @@ the order in which `lstep` enables the closer's / reader's steps, the refusal ta
 is the model's `write`. Only the Go spelling of the eight status names is restated by hand. -/
 
 section TieA
-open SrcFlow
+open SrcFlow (sameSet without count dedup)
+open SrcPaths
 
 def allStatus : List Status :=
   [.preparing, .ok, .activeClosing, .activeClosed, .passiveClosing, .passiveClosed, .redialing, .redialFailed]
@@ -449,6 +450,15 @@ def discDefaultArm : List Status := allStatus.filter fun s => !discReturnArm.con
 def redialAll : List Redial.Status :=
   [.preparing, .ok, .activeClosing, .activeClosed, .passiveClosing, .passiveClosed, .redialing, .redialFailed]
 
+/-- the path facts this section reads. -/
+def pathMissing : List (List String) :=
+  [Gen.tpaths_session_closeLocked_missing, Gen.tpaths_session_readDisconnected_missing, Gen.tpaths_session_Close_missing,
+   Gen.tpaths_session_redialForClient_missing, Gen.tpaths_peer_Dial_missing, Gen.tpaths_peer_Dial_redial_missing,
+   Gen.tpaths_peer_ServeConn_missing, Gen.tpaths_peer_serveListener_accept_missing]
+
+def isRedialCas (e : PEv) : Bool := e.is "cas" (casName .redialing redialFrom)
+def isDiscCas (e : PEv) : Bool := e.is "cas" (goName .passiveClosing ++ "<-status")
+
 /-- **No blind status store outside the lock; the compare-and-swap sites are the model's guards
     (tie A).** In the root package as it is now:
     (1) the status word is written only through `changeStatus` / `tryChangeStatus` (no raw atomic
@@ -470,6 +480,10 @@ def redialAll : List Redial.Status :=
     `case` lists of its switch are the model's arms (return for PassiveClosed, ActiveClosed,
     PassiveClosing; keep ActiveClosing); `redialForClient` Redialing ← `Model/Redial.casFrom`; the redial
     literal RedialFailed ← {Redialing} = `Redial.casRedialFailed`.
+    The statements about order are statements about EVERY control-flow path of the function
+    (`Gen.tpaths_*`: conditions normalised, helpers inlined), e.g. "on every path of `redialForClient` the
+    compare-and-swap comes after `s.lock.Lock()` with no `Unlock` in between, and the closure is called
+    only on a path that won it"; what a lost compare-and-swap does is read off the paths too.
     Replacing a compare-and-swap by a blind store, widening a from-list or storing the status
     somewhere else changes a regenerated fact and this theorem no longer checks. -/
 theorem C07_no_blind_store_outside_lock :
@@ -481,21 +495,41 @@ theorem C07_no_blind_store_outside_lock :
     Gen.lock_held_calls =
       [("closeLocked", "peer.Dial#redial", "no-lock"), ("closeLocked", "session.Close", "lock-held"),
        ("redialForClientLocked", "session.redialForClient", "lock-held")] ∧
-    count "assign:redialForClientLocked" (keys Gen.flow_peer_Dial) = 1 ∧
-    keys (mainFlow Gen.flow_session_Close) = ["lock:lock.Lock", "call:closeLocked"] ∧
-    before "lock:lock.Lock" ("cas:" ++ casName .redialing redialFrom) (keys (mainFlow Gen.flow_session_redialForClient)) = true ∧
-    before ("cas:" ++ casName .redialing redialFrom) "call:redialForClientLocked" (keys (mainFlow Gen.flow_session_redialForClient)) = true ∧
-    before ("cas:" ++ goName .passiveClosing ++ "<-status") "store:statusPassiveClosed" (keys (mainFlow Gen.flow_session_readDisconnected)) = true ∧
+    pathMissing.all (· == []) = true ∧
+    Gen.tpaths_peer_Dial.all (fun p => (p.filter fun (e : PEv) => e.is "assign" "redialForClientLocked").length ≤ 1) = true ∧
+    Gen.tpaths_peer_Dial.any (fun p => p.any fun (e : PEv) => e.is "assign" "redialForClientLocked") = true ∧
+    Gen.tpaths_session_Close.map keys = [["lock:lock.Lock", "call:closeLocked", "lock:lock.Unlock"]] ∧
+    Gen.tpaths_session_redialForClient.all (fun p =>
+      precededBy (fun e => e.is "lock" "lock.Lock") isRedialCas p &&
+      precededBy (fun e => isRedialCas e && e.out == "ok") (fun e => e.is "call" "redialForClientLocked") p &&
+      (upTo (fun e => e.is "call" "redialForClientLocked") p).all (fun e => !e.is "lock" "lock.Unlock") &&
+      (upTo isRedialCas p).all (fun e => !e.is "lock" "lock.Unlock")) = true ∧
+    Gen.tpaths_session_redialForClient.any (fun p => p.any fun (e : PEv) => e.is "call" "redialForClientLocked") = true ∧
+    Gen.tpaths_session_readDisconnected.all
+      (precededBy (fun e => isDiscCas e && e.out == "ok") (fun e => e.is "store" "statusPassiveClosed")) = true ∧
+    Gen.tpaths_session_readDisconnected.any (fun p => p.any fun (e : PEv) => e.is "store" "statusPassiveClosed") = true ∧
+    -- what a lost compare-and-swap does: return (close, accept, dial), back to the load (disconnect), `false` (redial entry)
+    [Gen.tpaths_session_closeLocked, Gen.tpaths_peer_ServeConn, Gen.tpaths_peer_Dial].all (fun ps => ps.all fun p =>
+      (rest (fun e => e.kind == "cas" && e.out == "fail") p).all fun e => e.kind == "return") = true ∧
+    Gen.tpaths_session_readDisconnected.all (fun p =>
+      !(p.any fun (e : PEv) => isDiscCas e && e.out == "fail") || keys (rest (fun (e : PEv) => isDiscCas e && e.out == "fail") p) == ["loop:back"]) = true ∧
+    Gen.tpaths_session_redialForClient.all (fun p =>
+      !(p.any fun (e : PEv) => isRedialCas e && e.out == "fail") ||
+        rtags (rest (fun e => isRedialCas e && e.out == "fail") p) == ["return:false", "lock:lock.Unlock"]) = true ∧
+    [Gen.tpaths_session_closeLocked, Gen.tpaths_peer_ServeConn, Gen.tpaths_peer_Dial, Gen.tpaths_peer_serveListener_accept,
+     Gen.tpaths_session_readDisconnected, Gen.tpaths_session_redialForClient].all (fun ps => ps.all fun p =>
+      p.all fun (e : PEv) => e.kind != "cas" || e.out != "") = true ∧
+    Gen.tpaths_peer_Dial_redial.all (fun p => p.all fun (e : PEv) => e.kind != "cas" || e.out == "") = true ∧
     blindStore (fun s => coreAt s .running .store .idle .preparing) .cStore .activeClosed = true ∧
     blindStore (fun s => coreAt s .running .idle .closed .ok) .dClosed .passiveClosed = true ∧
-    sameSet ((Gen.status_sites.filter fun r => r.2.1 == "cas").map fun r => (r.1, r.2.2.1, r.2.2.2))
-      [("session.closeLocked", casName .activeClosing closeFrom, "fail-return"),
-       ("peer.ServeConn", casName .ok [.preparing], "fail-return"),
-       ("peer.Dial", casName .ok [.preparing], "fail-return"),
-       ("peer.serveListener#accept", casName .ok [.preparing], "fail-return"),
-       ("session.readDisconnected", goName .passiveClosing ++ "<-status", "fail-continue"),
-       ("session.redialForClient", casName .redialing redialFrom, "ok-guard"),
-       ("peer.Dial#redial", casName .redialFailed [.redialing], "ignored")] = true ∧
+    sameSet ((Gen.status_sites.filter fun r => r.2.1 == "cas").map fun r => (r.1, r.2.2.1))
+      [("session.closeLocked", casName .activeClosing closeFrom),
+       ("peer.ServeConn", casName .ok [.preparing]),
+       ("peer.Dial", casName .ok [.preparing]),
+       ("peer.serveListener#accept", casName .ok [.preparing]),
+       ("session.readDisconnected", goName .passiveClosing ++ "<-status"),
+       ("session.redialForClient", casName .redialing redialFrom),
+       ("peer.Dial#redial", casName .redialFailed [.redialing])] = true ∧
     sameSet closeFrom (fromSet (fun s => coreAt s .hooks .idle .idle .preparing) .closeCall .activeClosing) = true ∧
     sameSet [Status.preparing] (fromSet (fun s => coreAt s .accepted .idle .idle .preparing) .storeOk .ok) = true ∧
     -- readDisconnected: the switch arms and the compare-and-swap from the loaded status
@@ -553,46 +587,68 @@ def modelCloser : List String := ((closerStart.map (traceOf closerEvents 12)).ge
 def modelReader (st : Status) : List String :=
   (traceOf readerEvents 12 (coreAt st .running .idle .disc0 .preparing)).map stepKey
 
-/-- the lifecycle statements of a flow: the function's own statements without `case` / `cmp` markers. -/
-def lifeKeys (f : List SrcFlow.Ev) : List String := keys ((mainFlow f).filter fun e => e.kind != "case" && e.kind != "cmp")
+/-- what `Model/Lifecycle` abstracts from on these paths: the wait for running handlers and the cancel
+    loop (C08's model), the redial attempt (C13's model: without a redial function it returns false at
+    once), the re-tests of an already decided status. -/
+def abstracted (e : PEv) : Bool :=
+  e.is "wg" "ctx.Wait" || e.is "call" "redialForClient" || e.is "call" "cancel" || e.kind == "cmp"
 
-/-- what `Model/Lifecycle` abstracts from on these paths: the wait for running handlers (C08's model),
-    the redial attempt (C13's model: without a redial function it returns false at once). -/
-def abstracted : List String := ["wg:ctx.Wait", "call:redialForClient"]
+/-- a path as tags (`kind:name=outcome`), without `return`s and without what the model abstracts from. -/
+def lifeTags (p : SrcPaths.Path) : List String := tags (p.filter fun e => !abstracted e)
 
-def isAcReturn (e : SrcFlow.Ev) : Bool := e.kind == "return" && e.guards == ["status == statusActiveClosing"]
+def closeCas : String := "cas:" ++ casName .activeClosing closeFrom
+
+/-- the source form of the reader's `dStore` step taken in status `st`: the switch arm, and the
+    compare-and-swap where the model changes the status. -/
+def dStoreTags (st : Status) (c : Core) : List String :=
+  if c.reader == .done then ["case:" ++ commaJoin (discReturnArm.map goName)]
+  else if c.st == st then ["case:" ++ goName st]
+  else ["case:default", "cas:" ++ goName .passiveClosing ++ "<-status=ok"]
+
+/-- the model's reader entering `readDisconnected` in status `st`, as path tags. -/
+def modelReaderTags (st : Status) : List String :=
+  (traceOf readerEvents 12 (coreAt st .running .idle .disc0 .preparing)).flatMap fun x =>
+    match x.1 with
+    | .dStore => dStoreTags st x.2
+    | _ => [stepKey x]
 
 /-- **The close path and the disconnect path run in the model's order (tie A).**
-    `closeLocked` as it is now: compare-and-swap to ActiveClosing (failing branch returns), then — all
-    unconditional — `sessHub.delete(id, s)`, `notifyClosed`, wait for the handler contexts, wait for
-    the pending calls, store ActiveClosed, `socket.Close`, `postDisconnect`: with the context wait
-    (which `Model/Lifecycle` leaves to C08) taken out, exactly the order in which `lstep` enables the
-    closer's steps after `closeCall` (`cHubDel`, `cNotify`, `cCallWait`, `cStore`, `cSock`, `cHook`).
-    `readDisconnected` likewise: load, compare-and-swap to PassiveClosing, `sessHub.delete(id, s)`,
-    [context wait, cancel loop], `socket.Close`, [redial attempt], store PassiveClosed, `notifyClosed`,
-    `postDisconnect` = the reader's `dLoad … dHook`; the last three under the failed-redial guard; and
-    the early return for a session that `Close()` is closing sits after the hub delete and before
-    the socket close, where the model's `dHubDel` ends the reader for `rst = ActiveClosing`. Every hub
+    `closeLocked` as it is now has exactly two control-flow paths: the compare-and-swap to ActiveClosing
+    is lost → return; it is won → `sessHub.delete(id, s)`, `notifyClosed`, wait for the handler contexts,
+    wait for the pending calls, store ActiveClosed, `socket.Close`, `postDisconnect` — with the context
+    wait (which `Model/Lifecycle` leaves to C08) taken out, exactly the order in which `lstep` enables
+    the closer's steps after `closeCall` (`cHubDel`, `cNotify`, `cCallWait`, `cStore`, `cSock`, `cHook`).
+    `readDisconnected` has exactly the paths of the model's reader (`dLoad … dHook`), one per class of
+    loaded status: a status of the return arm → return at once; ActiveClosing → `sessHub.delete`, [context
+    wait, cancel loop], return — before the socket close, where the model's `dHubDel` ends the reader
+    for `rst = ActiveClosing`; any other status → compare-and-swap to PassiveClosing from the loaded
+    status; lost → back to the load; won → `sessHub.delete(id, s)`, [context wait, cancel loop],
+    `socket.Close`, [redial attempt: succeeded → return], store PassiveClosed, `notifyClosed`,
+    `postDisconnect`; the last three only on a path on which the redial attempt failed. Every hub
     delete in the package is the two-argument owner form. Reordering two of these statements,
-    dropping one or adding another lifecycle operation to either path changes the regenerated
-    flow and this theorem no longer checks. -/
+    dropping one, making one conditional or adding another lifecycle operation to either path
+    changes the regenerated path set and this theorem no longer checks. -/
 theorem C07_close_path_order :
-    Gen.transitions_missing = [] ∧
-    without abstracted (lifeKeys Gen.flow_session_closeLocked) = ("cas:" ++ casName .activeClosing closeFrom) :: modelCloser ∧
+    Gen.tpaths_session_closeLocked_missing = [] ∧ Gen.tpaths_session_readDisconnected_missing = [] ∧
+    sameSet (Gen.tpaths_session_closeLocked.map lifeTags) [[closeCas ++ "=fail"], (closeCas ++ "=ok") :: modelCloser] = true ∧
     -- with the wait for the handler contexts at its place: right after `notifyClosed`, before the call wait
-    lifeKeys Gen.flow_session_closeLocked = ("cas:" ++ casName .activeClosing closeFrom) ::
-      (modelCloser.flatMap fun k => if k == "call:notifyClosed" then [k, "wg:ctx.Wait"] else [k]) ∧
+    sameSet (Gen.tpaths_session_closeLocked.map tags) [[closeCas ++ "=fail"], (closeCas ++ "=ok") ::
+      (modelCloser.flatMap fun k => if k == "call:notifyClosed" then [k, "wg:ctx.Wait"] else [k])] = true ∧
     modelCloser.length = 6 ∧
-    ((mainFlow Gen.flow_session_closeLocked).filter fun e => e.kind != "return").all (fun e => e.guards.isEmpty) = true ∧
-    without abstracted (lifeKeys Gen.flow_session_readDisconnected) = modelReader .ok ∧
+    sameSet (dedup (Gen.tpaths_session_readDisconnected.map lifeTags))
+      (dedup (allStatus.map modelReaderTags) ++
+       [["load:getStatus", "case:default", "cas:" ++ goName .passiveClosing ++ "<-status=fail", "loop:back"],
+        (modelReaderTags .ok).takeWhile (· != "store:statusPassiveClosed")]) = true ∧
+    (dedup (allStatus.map modelReaderTags)).length = 3 ∧
+    (modelReaderTags .ok).length = 8 ∧ (modelReaderTags .activeClosing).length = 3 ∧
+    modelReaderTags .ok = (modelReader .ok).flatMap (fun k =>
+      if k == "cas:" ++ goName .passiveClosing ++ "<-status" then ["case:default", k ++ "=ok"] else [k]) ∧
     (modelReader .ok).length = 7 ∧
-    ((upto isAcReturn (mainFlow Gen.flow_session_readDisconnected)).map fun l => without abstracted (lifeKeys l)) =
-      some (modelReader .activeClosing) ∧
-    (modelReader .activeClosing).length = 3 ∧
-    ((after (fun e => e.is "call" "redialForClient") (mainFlow Gen.flow_session_readDisconnected)).map fun l =>
-      l.map fun e => (e.key, e.guards)) =
-      some [("store:statusPassiveClosed", ["!$.redialForClient(%)"]), ("call:notifyClosed", ["!$.redialForClient(%)"]),
-            ("stage:postDisconnect", ["!$.redialForClient(%)"])] ∧
+    Gen.tpaths_session_readDisconnected.all (fun p =>
+      precededBy (fun e => e.is "call" "redialForClient" && e.out == "fail")
+        (fun e => e.is "store" "statusPassiveClosed" || e.is "call" "notifyClosed" || e.is "stage" "postDisconnect") p &&
+      (!(p.any fun (e : PEv) => e.is "call" "redialForClient" && e.out == "ok") ||
+        keys (rest (fun e => e.is "call" "redialForClient") p) == [])) = true ∧
     (Gen.lifecycle_sites.filter fun r => r.2.1 == "call" && r.2.2.1 == "sessHub.delete").all (fun r => r.2.2.2 == "argc=2") = true ∧
     sameSet ((Gen.lifecycle_sites.filter fun r => r.2.2.1 == "notifyClosed" || r.2.2.1 == "postDisconnect" || r.2.2.1 == "socket.Close").map
         fun r => (r.1, r.2.2.1))
@@ -614,8 +670,10 @@ def mtypes : List String := ["TypeCall", "TypeReply", "TypePush", "TypeAuthCall"
     by `srcfacts` for every status constant and every message type — is the refusal of
     `Lifecycle.write`: it lets a message through iff the status is Ok, or ActiveClosing and the
     message is a REPLY; in every other status (the closed ones in particular: fail fast) it returns
-    `statConnClosed` without touching the socket. That `if` comes after the status load and before
-    the write lock and `WriteMessage`. `goonRead` holds exactly in Ok and ActiveClosing. Letting
+    `statConnClosed` without touching the socket. On every control-flow path of `write` the status is
+    loaded before it is compared, the write lock is taken only on a path on which one of the
+    comparisons held, `WriteMessage` comes after the lock, and a path on which no comparison held
+    is: load, return `statConnClosed`. `goonRead` holds exactly in Ok and ActiveClosing. Letting
     another status through, or another message type in ActiveClosing, changes the regenerated
     table and this theorem no longer checks. -/
 theorem C07_fail_fast_condition :
@@ -625,10 +683,15 @@ theorem C07_fail_fast_condition :
     (allStatus.all fun st => [true, false].all fun r =>
       (write st r false .fine == (.connClosed, false)) || (write st r false .fine == (.ok, true))) = true ∧
     Gen.goonRead_table = allStatus.map (fun st => (goName st, goonRead st)) ∧
-    ((keys Gen.flow_session_write).filter fun k => k == "load:getStatus" || k == "lock:writeLock.Lock" || k == "call:WriteMessage") =
-      ["load:getStatus", "lock:writeLock.Lock", "call:WriteMessage"] ∧
-    ((upto (fun e => e.is "lock" "writeLock.Lock") (mainFlow Gen.flow_session_write)).map fun l =>
-      (l.filter fun e => e.kind == "return").map fun e => e.x) = some ["%,statConnClosed"] ∧
+    Gen.tpaths_session_write_missing = [] ∧
+    Gen.tpaths_session_write.all (fun p =>
+      precededBy (fun e => e.is "load" "getStatus") (fun e => e.kind == "cmp") p &&
+      precededBy (fun e => e.kind == "cmp" && e.out == "true") (fun e => e.is "lock" "writeLock.Lock") p &&
+      precededBy (fun e => e.is "lock" "writeLock.Lock") (fun e => e.is "call" "WriteMessage") p) = true ∧
+    Gen.tpaths_session_write.all (fun p => (p.any fun (e : PEv) => e.kind == "cmp" && e.out == "true") ||
+      rtags (p.filter fun e => e.kind != "cmp") == ["load:getStatus", "return:%,statConnClosed"]) = true ∧
+    Gen.tpaths_session_write.any (fun p => p.any fun (e : PEv) => e.is "call" "WriteMessage") = true ∧
+    Gen.tpaths_session_write.any (fun p => !(p.any fun (e : PEv) => e.kind == "cmp" && e.out == "true")) = true ∧
     ((Gen.status_sites.filter fun r => r.1 == "session.write").map fun r => (r.2.1, r.2.2.1)) =
       [("cmp", "==statusActiveClosing"), ("cmp", "==statusOk"), ("load", "getStatus")] := by
   decide
